@@ -176,7 +176,7 @@ func TestGovcMarkupReplay(t *testing.T) {
 	evals, nontrivial := 0, 0
 	defer func() {
 		fmt.Printf("GOVC-CASES evaluations=%d distinct_nontrivial=%d rule=%s\n", evals, nontrivial,
-			"9 OpenGraph states (absent, complete, minimal, profile, one required property missing/empty) x 4 schema.org states x 4 IE Reading View states x 4 opt-out variants, unique values per source; plus 14 value shapes of the URL-valued properties (https, protocol-relative, root-relative, relative, ../, query strings, upper-case scheme, surrounding white space, inner space, data: URI, bare word, port+userinfo) x 8 targets (og:image / og:url / both, schema.org image / url / both as meta or as link+img, all) x 4 OpenGraph states x 2 schema.org states, and 8 multi-image OpenGraph blocks (several og:image, og:image:url overrides, mixed shapes) x 2 x 2; plus the POSITION of the markup in the page: 15 positions of a moved group of metas (start / end of body, inside a body div, in head but after a tracking img / div / iframe / stray text that makes the parser close the head early, a pixel at the very start of head, before <head>, after </body>, after </html>, repeated in head and body, repeated before and after the pixel, inside <noscript> in head / body) x moved group {OpenGraph metas, IE reading-view metas, IE_RM_OFF, all} x 3 OpenGraph states x 2 schema.org x 3 IE x 3 opt-out variants (cases where the moved group is empty skipped): the outcome must be that of the same metas in a clean head (repeated list entries compared as sets; for <noscript> either reading - metas count / do not count - is accepted per case, but it must be the same reading for every source), and 7 places of the schema.org item (itemscope on html with the itemprop metas in body or in head, on body, on article, on a late / nested div, on a section in an article) x {clean head, head closed early by a pixel} x 3 x 3 x 2 x 2; oracle = per-field first non-empty in the order OG(valid only), schema.org, IE, surrounding white space ignored; non-trivial = at least one source present in the page")
+			"9 OpenGraph states (absent, complete, minimal, profile, one required property missing/empty) x 4 schema.org states x 4 IE Reading View states x 4 opt-out variants, unique values per source; plus 14 value shapes of the URL-valued properties (https, protocol-relative, root-relative, relative, ../, query strings, upper-case scheme, surrounding white space, inner space, data: URI, bare word, port+userinfo) x 8 targets (og:image / og:url / both, schema.org image / url / both as meta or as link+img, all) x 4 OpenGraph states x 2 schema.org states, and 8 multi-image OpenGraph blocks (several og:image, og:image:url overrides, mixed shapes) x 2 x 2; plus the POSITION of the markup in the page: 15 positions of a moved group of metas (start / end of body, inside a body div, in head but after a tracking img / div / iframe / stray text that makes the parser close the head early, a pixel at the very start of head, before <head>, after </body>, after </html>, repeated in head and body, repeated before and after the pixel, inside <noscript> in head / body) x moved group {OpenGraph metas, IE reading-view metas, IE_RM_OFF, all} x 3 OpenGraph states x 2 schema.org x 3 IE x 3 opt-out variants (cases where the moved group is empty skipped): the outcome must be that of the same metas in a clean head (repeated list entries compared as sets; for <noscript> either reading - metas count / do not count - is accepted per case, but it must be the same reading for every source), and 7 places of the schema.org item (itemscope on html with the itemprop metas in body or in head, on body, on article, on a late / nested div, on a section in an article) x {clean head, head closed early by a pixel} x 3 x 3 x 2 x 2; plus the ORDER of the tags of one source: OpenGraph metas in 14 orders for an article (og:type first / last / between the article:* tags, og:title last, everything after og:type reversed, article:* interleaved with og:* and with unrelated metas, one / some / all article:* tags before og:type, the two article:author tags on either side of og:type, og:type or og:title twice with the same value, og:type website-then-article and article-then-website), 6 orders for a profile, 3 each for a website and for an incomplete block, x 3 schema.org variants x 3 IE variants; schema.org itemprop metas in 6 orders (reversed, rotated, author first, headline last, interleaved with unrelated itemprops) x 2 item shapes x 3 x 2; IE reading-view metas in 5 orders x 3 orders of the body hints x 2 x 2; the outcome must be that of the canonical order (article:author list in tag order; for a repeated og:type with two values only the fields that do not depend on the type are compared); fields fed by an article:* / profile:* tag that PRECEDES og:type are reported under one key per order (.../early), all other fields strictly per field; oracle = per-field first non-empty in the order OG(valid only), schema.org, IE, surrounding white space ignored; non-trivial = at least one source present in the page")
 	}()
 	type optOut struct {
 		key, meta string
@@ -541,6 +541,255 @@ func TestGovcMarkupReplay(t *testing.T) {
 							}
 						}
 					}
+				}
+			}
+		}
+	}
+
+	// ---- the ORDER of the tags of one source relative to each other (appended; the keys above are unchanged) ----
+	// The precedence rule asks what a source provides, not in which order its tags are written: og:type may stand
+	// before, after or between the article:* / profile:* tags, og:title may come last, unrelated metas may be
+	// interleaved. Every order of the same set of tags must give the outcome of the canonical order (the
+	// article:author list follows the order of its tags). Where a tag is repeated with another value, a later
+	// duplicate may legitimately win: only the fields that do not depend on the repeated tag are compared.
+	unrelated := []string{
+		`<meta name="viewport" content="width=device-width, initial-scale=1">`,
+		govcC14Meta("property", "fb:app_id", "1234567890"),
+		govcC14Meta("property", "og:locale", "en_US"),
+		govcC14Meta("name", "twitter:card", "summary_large_image"),
+		govcC14Meta("property", "article:tag", "unrelated-tag"),
+		govcC14Meta("property", "og:video", "http://og.example/clip.mp4"),
+		`<link rel="canonical" href="http://unrelated.example/canonical">`,
+		govcC14Meta("name", "robots", "index,follow"),
+		govcC14Meta("property", "book:author", "http://unrelated.example/book-author"),
+		govcC14Meta("http-equiv", "X-UA-Compatible", "IE=edge"),
+	}
+	ogTags := map[string]string{
+		"T":  govcC14Meta("property", "og:title", "og-title"),
+		"U":  govcC14Meta("property", "og:url", "http://og.example/page"),
+		"I":  govcC14Meta("property", "og:image", "http://og.example/img.png"),
+		"D":  govcC14Meta("property", "og:description", "og-description"),
+		"S":  govcC14Meta("property", "og:site_name", "og-publisher"),
+		"aS": govcC14Meta("property", "article:section", "og-section"),
+		"aP": govcC14Meta("property", "article:published_time", "og-published"),
+		"aM": govcC14Meta("property", "article:modified_time", "og-modified"),
+		"aE": govcC14Meta("property", "article:expiration_time", "og-expiration"),
+		"a1": govcC14Meta("property", "article:author", "http://og.example/author1"),
+		"a2": govcC14Meta("property", "article:author", "http://og.example/author2"),
+		"pF": govcC14Meta("property", "profile:first_name", "Ogfirst"),
+		"pL": govcC14Meta("property", "profile:last_name", "Oglast"),
+		"Ya": govcC14Meta("property", "og:type", "article"),
+		"Yw": govcC14Meta("property", "og:type", "website"),
+		"Yp": govcC14Meta("property", "og:type", "profile"),
+	}
+	earlyField := map[string]string{"aS": "Article.Section", "aP": "Article.PublishedTime", "aM": "Article.ModifiedTime", "aE": "Article.ExpirationTime", "a1": "Article.Authors", "a2": "Article.Authors", "pF": "Author", "pL": "Author"}
+	type ogOrder struct {
+		name, seq string
+		dupType   bool // og:type occurs with two different values: the fields that depend on the type are not compared
+	}
+	ogOrders := map[string][]ogOrder{
+		"complete": {
+			{"canonical", "T Ya U I D S aS aP aM aE a1 a2", false},
+			{"type-first", "Ya T U I D S aS aP aM aE a1 a2", false},
+			{"after-type-reversed", "T Ya a2 a1 aE aM aP aS S D I U", false},
+			{"title-last", "Ya aS aP aM aE a1 a2 D S I U T", false},
+			{"interleaved", "Ya aS T aP U aM I aE D a1 S a2", false},
+			{"unrelated-between", "x T x Ya x U x I x D x S x aS x aP x aM x aE x a1 x a2 x", false},
+			{"dup-type-same", "T Ya U I aS aP Ya aM aE a1 a2 D S", false},
+			{"dup-title-same", "T Ya U I D S aS aP aM aE a1 a2 T", false},
+			{"type-last", "T U I D S aS aP aM aE a1 a2 Ya", false},
+			{"type-between", "T U I aS aP Ya aM aE a1 a2 D S", false},
+			{"one-article-tag-first", "aP T Ya U I D S aM aS a1 a2 aE", false},
+			{"article-tags-first", "aS aP aM aE a1 a2 T Ya U I D S", false},
+			{"authors-around-type", "T a1 Ya a2 U I D S aS aP aM aE", false},
+			{"dup-type-website-then-article", "Yw T U I D S Ya aS aP aM aE a1 a2", true},
+			{"dup-type-article-then-website", "T Ya U I D S aS aP aM aE a1 a2 Yw", true},
+		},
+		"profile": {
+			{"canonical", "T Yp U I D pF pL", false},
+			{"type-first", "Yp pL pF T U I D", false},
+			{"after-type-reversed", "T Yp pL pF D I U", false},
+			{"unrelated-between", "x T x Yp x U x I x D x pF x pL x", false},
+			{"type-last", "T U I D pF pL Yp", false},
+			{"names-around-type", "T pF Yp pL U I D", false},
+		},
+		"minimal": {
+			{"canonical", "T Yw U I", false},
+			{"reversed", "I U Yw T", false},
+			{"unrelated-between", "x I x T x U x Yw x", false},
+		},
+		"miss-image": {
+			{"canonical", "T Ya U D S aS aP aM aE a1 a2", false},
+			{"type-between", "T U aS aP Ya aM aE a1 a2 D S", false},
+			{"type-last", "aS aP aM aE a1 a2 D S U T Ya", false},
+		},
+	}
+	splitMetas := func(markup string) []string { // the <meta ...> tags of a block, one per entry
+		var out []string
+		for _, part := range strings.Split(markup, "<meta ") {
+			if part != "" {
+				out = append(out, "<meta "+part)
+			}
+		}
+		return out
+	}
+	type perm struct {
+		name string
+		do   func(tags []string) []string
+	}
+	rev := func(tags []string) []string {
+		out := make([]string, len(tags))
+		for i, tg := range tags {
+			out[len(tags)-1-i] = tg
+		}
+		return out
+	}
+	moveTo := func(tags []string, substr string, front bool) []string {
+		var hit, rest []string
+		for _, tg := range tags {
+			if strings.Contains(tg, substr) {
+				hit = append(hit, tg)
+			} else {
+				rest = append(rest, tg)
+			}
+		}
+		if front {
+			return append(hit, rest...)
+		}
+		return append(rest, hit...)
+	}
+	between := func(tags, extra []string) []string {
+		out := []string{extra[0]}
+		for i, tg := range tags {
+			out = append(out, tg, extra[(i+1)%len(extra)])
+		}
+		return out
+	}
+	reorderSchema := func(sc *govcC14Src, pm perm) {
+		if sc.body == "" {
+			return
+		}
+		open, end := `<div itemscope itemtype="http://schema.org/Article">`, `</div>`
+		props := strings.TrimSuffix(strings.TrimPrefix(sc.body, open), end)
+		sc.body = open + strings.Join(pm.do(splitMetas(props)), "") + end
+	}
+	schemaPerms := []perm{
+		{"canonical", func(tg []string) []string { return tg }},
+		{"reversed", rev},
+		{"rotated", func(tg []string) []string { k := len(tg) / 2; return append(append([]string{}, tg[k:]...), tg[:k]...) }},
+		{"author-first", func(tg []string) []string { return moveTo(moveTo(tg, `"author"`, true), `"creator"`, true) }},
+		{"headline-last", func(tg []string) []string { return moveTo(moveTo(tg, `"headline"`, false), `"name"`, false) }},
+		{"unrelated-between", func(tg []string) []string {
+			return between(tg, []string{govcC14Meta("itemprop", "keywords", "unrelated-keyword"), govcC14Meta("itemprop", "wordCount", "900"), govcC14Meta("itemprop", "inLanguage", "en"), `<span itemprop="alternativeHeadline"></span>`})
+		}},
+	}
+	ieHeadPerms := []perm{
+		{"canonical", func(tg []string) []string { return tg }},
+		{"reversed", rev},
+		{"rotated", func(tg []string) []string { return append(append([]string{}, tg[1:]...), tg[0]) }},
+		{"date-first", func(tg []string) []string { return moveTo(tg, `"displaydate"`, true) }},
+		{"unrelated-between", func(tg []string) []string { return between(tg, unrelated) }},
+	}
+	reorderIEHead := func(ie *govcC14Src, pm perm) { ie.head = strings.Join(pm.do(splitMetas(ie.head)), "") }
+	ieBodies := []struct{ name, body string }{
+		{"canonical", `<div publisher="ie-publisher"><span class="byline-name">ie-author</span></div><img src="http://ie.example/img.png" width="600" height="400">`},
+		{"image-first", `<img src="http://ie.example/img.png" width="600" height="400"><div publisher="ie-publisher"><span class="byline-name">ie-author</span></div>`},
+		{"byline-before-publisher", `<span class="byline-name">ie-author</span><img src="http://ie.example/img.png" width="600" height="400"><div publisher="ie-publisher"></div>`},
+	}
+	earlySeen := map[string]bool{}
+	for _, ogs := range []string{"complete", "profile", "minimal", "miss-image"} {
+		for _, ord := range ogOrders[ogs] {
+			for _, scv := range []string{"complete", "complete-reversed", "absent"} {
+				for _, iev := range []string{"complete", "complete-reversed", "absent"} {
+					og := govcC14OG(ogs)
+					sc, ie := govcC14Schema(strings.TrimSuffix(scv, "-reversed")), govcC14IE(strings.TrimSuffix(iev, "-reversed"))
+					if strings.HasSuffix(scv, "-reversed") {
+						reorderSchema(&sc, schemaPerms[1])
+					}
+					if strings.HasSuffix(iev, "-reversed") {
+						reorderIEHead(&ie, ieHeadPerms[1])
+					}
+					var head strings.Builder
+					var authors []string
+					early := map[string]bool{}
+					typeSeen, nx := false, 0
+					for _, id := range strings.Fields(ord.seq) {
+						if id == "x" {
+							head.WriteString(unrelated[nx%len(unrelated)])
+							nx++
+							continue
+						}
+						tag, ok := ogTags[id]
+						if !ok {
+							t.Fatalf("generator bug: unknown tag id %q", id)
+						}
+						head.WriteString(tag)
+						if id[0] == 'Y' {
+							typeSeen = true
+						}
+						if id == "a1" || id == "a2" {
+							authors = append(authors, map[string]string{"a1": "http://og.example/author1", "a2": "http://og.example/author2"}[id])
+						}
+						if f, ok := earlyField[id]; ok && !typeSeen && og.usable {
+							early[f] = true
+						}
+					}
+					og.head = head.String()
+					if og.usable && og.hasArticle {
+						og.artAuthors = authors
+					}
+					key := fmt.Sprintf("order-og/%s/%s/schema-%s/ie-%s", ogs, ord.name, scv, iev)
+					res := run(key, `<html><head><title>Plain document title for the page</title>`+og.head+ie.head+`</head><body><div id="main">`+sc.body+ie.body+govcC14Prose+`</div></body></html>`, true)
+					if res == nil {
+						continue
+					}
+					var earlyBad []string
+					for _, b := range mismatches(res, og, sc, ie, false, "") {
+						if ord.dupType && (b[0] == "Type" || b[0] == "Author" || strings.HasPrefix(b[0], "Article.")) {
+							continue
+						}
+						if early[b[0]] {
+							earlyBad = append(earlyBad, b[1])
+							continue
+						}
+						t.Errorf("GOVC-FAIL %s/%s :: order of the OpenGraph tags %q: %s", key, b[0], ord.seq, b[1])
+					}
+					// the fields fed by an article:* / profile:* tag that precedes og:type: one key per order
+					if ek := fmt.Sprintf("order-og/%s/%s/early", ogs, ord.name); len(earlyBad) > 0 && !earlySeen[ek] {
+						earlySeen[ek] = true
+						t.Errorf("GOVC-FAIL %s :: order of the OpenGraph tags %q (first seen with schema-%s/ie-%s): an article:* / profile:* tag that precedes og:type is not honoured: %s", ek, ord.seq, scv, iev, strings.Join(earlyBad, "; "))
+					}
+				}
+			}
+		}
+	}
+	for _, scs := range []string{"complete", "alt"} {
+		for _, pm := range schemaPerms {
+			for _, ogv := range []string{"absent", "miss-image", "minimal-reversed"} {
+				for _, ies := range []string{"complete", "absent"} {
+					og, sc, ie := govcC14OG(strings.TrimSuffix(ogv, "-reversed")), govcC14Schema(scs), govcC14IE(ies)
+					if strings.HasSuffix(ogv, "-reversed") {
+						og.head = strings.Join(rev(splitMetas(og.head)), "")
+					}
+					reorderSchema(&sc, pm)
+					key := fmt.Sprintf("order-schema/%s/%s/og-%s/ie-%s", scs, pm.name, ogv, ies)
+					eval(key, og, sc, ie, none)
+				}
+			}
+		}
+	}
+	for _, pm := range ieHeadPerms {
+		for _, ib := range ieBodies {
+			for _, ogv := range []string{"absent", "minimal-reversed"} {
+				for _, scs := range []string{"absent", "sparse"} {
+					og, sc, ie := govcC14OG(strings.TrimSuffix(ogv, "-reversed")), govcC14Schema(scs), govcC14IE("complete")
+					if strings.HasSuffix(ogv, "-reversed") {
+						og.head = strings.Join(rev(splitMetas(og.head)), "")
+					}
+					reorderIEHead(&ie, pm)
+					ie.body = ib.body
+					key := fmt.Sprintf("order-ie/%s/%s/og-%s/schema-%s", pm.name, ib.name, ogv, scs)
+					eval(key, og, sc, ie, none)
 				}
 			}
 		}
